@@ -193,11 +193,52 @@ Section Graph.
 
   (* writeKids + writePagesDictDepth.  depth is counted down from MaxRecursionDepth+1;
      seen = PageTreeVisit.seen (ancestors is a subset of seen, so one test covers both errors).
-     Result: new state, seen, and the rewritten Kids and Count. *)
+     Result: new state, seen, and the rewritten Count (and Kids, for writeKids). *)
   Inductive pres := POk (s : st) (seen : list N) (count : Z) | PFail | PFuel.
   Inductive kres := KOk (s : st) (seen : list N) (kids : list obj) (count : Z) | KFail | KFuel.
 
   Definition memn (n : N) (l : list N) : bool := existsb (N.eqb n) l.
+
+  Section Kids.
+    Variable node : N -> st -> list N -> pres.      (* writePagesDictDepth one level down *)
+    Variable fuel : nat.
+    (* writeKids: acc = kids kept so far, reversed *)
+    Fixpoint wkids (a : list obj) (s : st) (seen : list N) (acc : list obj) (cnt : Z) {struct a} : kres :=
+      match a with
+      | [] => KOk s seen (rev acc) cnt
+      | o :: r =>
+        match o with
+        | ONull => wkids r s seen acc cnt                         (* o == nil: continue *)
+        | ORef k =>
+          match lookup g k with
+          | Some (_, ODict kd) =>
+            match dtype kd with
+            | Some t =>
+              if beqb t kPages then
+                match node k s seen with
+                | POk s' seen' c => wkids r s' seen' (o :: acc) (cnt + c)%Z
+                | PFail => KFail
+                | PFuel => KFuel
+                end
+              else if beqb t kPage then
+                match page_dict fuel k kd s with
+                | WOk s' => wkids r s' seen (o :: acc) (cnt + 1)%Z
+                | WFail => KFail
+                | WFuel => KFuel
+                end
+              else KFail                                          (* unexpected dict type *)
+            | None => KFail                                       (* missing page node dict type *)
+            end
+          | _ => KFail                                            (* page node dict is null / not a dict *)
+          end
+        | _ => KFail                                              (* missing indirect reference *)
+        end
+      end.
+  End Kids.
+
+  (* d.ArrayEntry("Kids"): only a direct array counts *)
+  Definition kids_of (d : dict) : list obj :=
+    match dfind kKids d with Some (OArr a) => a | _ => [] end.
 
   Fixpoint pages_node (depth : nat) (fuel : nat) (n : N) (s : st) (seen : list N) : pres :=
     match depth with
@@ -206,40 +247,7 @@ Section Graph.
       if memn n seen then PFail else               (* visit.Enter *)
       match lookup g n with
       | Some (_, ODict d) =>
-        let kids := match dfind kKids d with Some (OArr a) => a | _ => [] end in   (* ArrayEntry *)
-        let fix wkids (a : list obj) (s : st) (seen : list N) (acc : list obj) (cnt : Z) {struct a}
-              : kres :=
-            match a with
-            | [] => KOk s seen (rev acc) cnt
-            | o :: r =>
-              match o with
-              | ONull => wkids r s seen acc cnt                       (* o == nil: continue *)
-              | ORef k =>
-                match lookup g k with
-                | Some (_, ODict kd) =>
-                  match dtype kd with
-                  | Some t =>
-                    if beqb t kPages then
-                      match pages_node dp fuel k s seen with
-                      | POk s' seen' c => wkids r s' seen' (o :: acc) (cnt + c)%Z
-                      | PFail => KFail
-                      | PFuel => KFuel
-                      end
-                    else if beqb t kPage then
-                      match page_dict fuel k kd s with
-                      | WOk s' => wkids r s' seen (o :: acc) (cnt + 1)%Z
-                      | WFail => KFail
-                      | WFuel => KFuel
-                      end
-                    else KFail
-                  | None => KFail
-                  end
-                | _ => KFail                                            (* null / not a dict *)
-                end
-              | _ => KFail                                              (* missing indirect reference *)
-              end
-            end in
-        match wkids kids s (n :: seen) [] 0%Z with
+        match wkids (pages_node dp fuel) fuel (kids_of d) s (n :: seen) [] 0%Z with
         | KOk s1 seen1 kidsNew cnt =>
             let d' := dset kCount (OInt cnt) (dset kKids (OArr kidsNew) d) in
             match entries fuel false d' pages_keys ((n, (MPages, ODict d')) :: s1) with
@@ -334,7 +342,8 @@ Fixpoint wrefs (wp dest : bool) (o : obj) : list N :=
 Definition wrefs_values (wp dest : bool) (o : obj) : list N :=
   match o with
   | OStream d _ => flat_map (fun kv => wrefs wp dest (snd kv)) d
-  | _ => wrefs wp dest o
+  | OArr _ | ODict _ => wrefs wp dest o
+  | _ => []
   end.
 Definition wrefs_entries (wp : bool) (d : dict) (keys : list bytes) : list N :=
   flat_map (fun k => match dfind k d with Some o => wrefs wp false o | None => [] end) keys.
